@@ -33,7 +33,7 @@ def write_evidence(prop, tier, level, coverage, assumptions, wall, violations):
         json.dump(ev, f, indent=1)
 
 
-def prove(P, obligations_failed):
+def prove(P, obligations_failed, tier="quick"):
     """steps TRANSLATE + PROVE.  Appends (name, reason) to obligations_failed.  Returns info dict."""
     info = {}
     tr = build.translate()
@@ -47,6 +47,11 @@ def prove(P, obligations_failed):
         errs = [l for l in out.splitlines() if "error" in l][:8]
         obligations_failed.append(("lake build " + " ".join(P.targets), "\n".join(errs) or out[-1500:]))
         return info
+    if tier == "thorough":
+        bad = build.leanchecker(P.targets)
+        info["leanchecker"] = {"modules": P.targets, "failed": [m for m, _ in bad]}
+        for m, msg in bad:
+            obligations_failed.append((f"leanchecker {m}", msg))
     hits = build.grep_forbidden()
     info["forbidden_hits"] = hits
     for h in hits:
@@ -85,7 +90,7 @@ def cmd_check(prop, tier):
             harness, herr = build.build_harness(d)
             if herr:
                 obligations_failed.append(("build of harness against /repo", herr[-1500:]))
-        info = prove(P, obligations_failed)
+        info = prove(P, obligations_failed, tier)
         ctx = props.Ctx(prop=prop, tier=tier, repo_build=d, harness=harness, model=build.model_exe(),
                         workdir=os.path.join(WORK, "run", prop))
         if harness and info.get("lake_ok"):
@@ -137,6 +142,7 @@ def cmd_check(prop, tier):
            "obligations_failed": [{"obligation": o, "reason": r[:300]} for o, r in obligations_failed],
            "undischarged_structures": P.undischarged,
            "translator": info.get("translator"),
+           "leanchecker": info.get("leanchecker"),
            "explanation": P.explanation}
     cov.update(coverage)
     write_evidence(prop, tier, P.level, cov, P.assumptions, time.time() - t0, violations)
